@@ -13,6 +13,7 @@ import traceback
 
 VERIF = os.path.dirname(os.path.dirname(os.path.abspath(__file__)))
 REPO = os.environ.get("VERIF_REPO", "/repo")
+FORCE_SCRATCH = False      # set by ./check replay: a replay never rewrites committed evidence
 
 GLOBAL_ASSUMPTIONS = [
     "Engine A/S: Python int is mathematical, float arithmetic is treated as exact real/rational arithmetic "
@@ -161,7 +162,7 @@ class Run:
             self.violations.append({"obligation": oid, "function": fn, "what": what, "replay": None})
             return True
         self._replay_n += 1
-        d = os.path.join(VERIF, "replays" if REPO == "/repo" else os.path.join(".scratch", "replays"), self.pid)
+        d = os.path.join(VERIF, "replays" if (REPO == "/repo" and not FORCE_SCRATCH) else os.path.join(".scratch", "replays"), self.pid)
         os.makedirs(d, exist_ok=True)
         safe = "".join(c if c.isalnum() or c in "._-" else "_" for c in oid)[:80]
         path = os.path.join(d, f"{safe}.{self._replay_n}.json")
@@ -230,7 +231,7 @@ class Run:
               "coverage": _jsonable(cov), "assumptions": self.assumptions, "wall_s": round(wall, 2),
               "violations": len(self.violations)}
         # runs against a scratch copy of the repository (VERIF_REPO set by tools/try_seed.sh) never touch the committed evidence
-        evdir = os.path.join(VERIF, "evidence") if REPO == "/repo" else os.path.join(VERIF, ".scratch", "evidence")
+        evdir = os.path.join(VERIF, "evidence") if (REPO == "/repo" and not FORCE_SCRATCH) else os.path.join(VERIF, ".scratch", "evidence")
         os.makedirs(evdir, exist_ok=True)
         with open(os.path.join(evdir, f"{self.pid}.json"), "w") as fh:
             json.dump(ev, fh, indent=1)
